@@ -383,7 +383,7 @@ func TestC03_Acks(t *testing.T) {
 		"peer's FIRST call for that very token, a request that timed out while buffered never reaches the peer, every request reaches the peer at most once; afterwards a fresh round trip each way "+
 		"succeeds / an Emit on the dead socket returns; non-trivial = reply within 1 ms of T, or >= 2 outstanding acks, or a buffered multi-frame request")
 	rapidGuard(t, "C03", c03Check)
-	runRapid(t, c03Check, tierN(4000, 120000), func(t *rapid.T) {
+	runRapid(t, c03Check, tierN(12000, 160000), func(t *rapid.T) {
 		c := genC03Case(t)
 		f, nt := evalC03(c)
 		ev.Case(c, nt, c.class())
